@@ -593,6 +593,9 @@ func findLoops(fn *ssa.Function) map[*ssa.BasicBlock]*loopInfo {
 		var m token.Pos
 		for b := range loops[h].body {
 			for _, in := range b.Instrs {
+				if _, isPhi := in.(*ssa.Phi); isPhi {
+					continue // a phi carries the position of the variable's declaration
+				}
 				if p := in.Pos(); p.IsValid() && (m == 0 || p < m) {
 					m = p
 				}
